@@ -442,8 +442,7 @@ theorem readable_discardAll (s : Store) (es : List Err) (t : Tomb) (e : Ent)
 
 /-! ### ExportTx loop -/
 
-theorem exportLoop_locked_iff : ∀ (rs : List Rd) (i : Nat) (tr : Bool),
-    (exportLoop i tr rs).locked = true ↔ (exportLoop i tr rs).out = .errPartial := by
+theorem exportLoop_unlocked : ∀ (rs : List Rd) (i : Nat) (tr : Bool), (exportLoop i tr rs).locked = false := by
   intro rs
   induction rs with
   | nil => intro i tr; cases tr <;> simp [exportLoop]
